@@ -22,7 +22,7 @@ func init() { register(c15{}) }
 func (c15) ID() string            { return "C15" }
 func (c15) EvidenceLevel() string { return "fault_enumeration" }
 func (c15) Rule() string {
-	return "fault enumeration: for each container (flate/gzip/zlib, valid, from both writers) the source fails after delivering k bytes, for every k < len when the container is <= 2000 bytes, else every k in the first and last 64 bytes plus 200 seeded positions; the error is returned alone or together with the last bytes; error values {fresh errors.New, io.ErrClosedPipe, a wrapped error, io.ErrNoProgress}. The Reader (or its constructor) must end in an error satisfying errors.Is(err, E) that is none of io.EOF, io.ErrUnexpectedEOF, CorruptInputError, ErrChecksum, ErrHeader; every byte returned before is a payload prefix; two more Reads return (0, the same error). Non-trivial: k > 0; distinct by (container digest, k, delivery mode)."
+	return "fault enumeration: for each container (flate/gzip/zlib, valid, from both writers) the source fails after delivering k bytes, for every k < len when the container is <= 2000 bytes, else every k in the first and last 64 bytes plus 200 seeded positions; the error is returned alone or together with the last bytes; error values {fresh errors.New, io.ErrClosedPipe, wrapped errors incl. ones wrapping io.EOF, io.ErrNoProgress, deadline errors, an error of uncomparable dynamic type}; hand-built gzip members carry FHCRC and Extra fields up to 65535 bytes. The Reader (or its constructor) must end in an error satisfying errors.Is(err, E) that is none of io.EOF, io.ErrUnexpectedEOF, CorruptInputError, ErrChecksum, ErrHeader; every byte returned before is a payload prefix; two more Reads return (0, the same error). Non-trivial: k > 0; distinct by (container digest, k, delivery mode)."
 }
 func (c15) NumCases(tier string) int {
 	if tier == "thorough" {
@@ -156,7 +156,7 @@ func (c15) Run(c *mon.Ctx, i int) {
 	// including errors that merely wrap io.EOF / io.ErrUnexpectedEOF: they are not
 	// end-of-input and must come back as themselves
 	errVals := []error{base, io.ErrClosedPipe, wrapErr{base}, io.ErrNoProgress, wrapErr{io.EOF}, fmt.Errorf("read tcp: %w", io.ErrUnexpectedEOF), wrapErr{io.EOF},
-		os.ErrDeadlineExceeded, timeoutErr{}, context.DeadlineExceeded}
+		os.ErrDeadlineExceeded, timeoutErr{}, context.DeadlineExceeded, sliceErr{"c15: injected source failure of an uncomparable type"}}
 	baseDesc := map[string]interface{}{"reader": kind, "container": vs.Desc, "data": d.Desc, "container_len": len(cont), "container_sha": mon.Sha(cont)}
 	for kpos, k := range ks {
 		E := errVals[r.Intn(len(errVals))]
